@@ -567,5 +567,79 @@ def parseStatusLine (l : Bytes) : Option (Bytes × Nat × Bytes) :=
     else none
   | _ => none
 
+/-! #### the response side: a stream of responses, the last one possibly delimited by the close of the connection -/
+
+structure RMsg where
+  version : Bytes
+  status : Nat
+  reason : Bytes
+  fields : List Field
+  body : Bytes
+deriving Repr, DecidableEq
+
+inductive RFraming where
+  | none | cl (n : Nat) | chunked | eof
+deriving Repr, DecidableEq
+
+/-- RFC 9112 §6.3 for a response to a request with method `method`; anything ambiguous is refused -/
+def framingResp (version : Bytes) (status : Nat) (method : Bytes) (fs : List Field) : Option RFraming :=
+  let te := (fs.filter (nameIs sTE)).map (·.2)
+  let cl := (fs.filter (nameIs sCL)).map (·.2)
+  let codings := (te.flatMap (splitOn 44)).map (fun c => lower (stripOws c))
+  let bodilessR := asciiUpper method == sHead || (100 ≤ status && status ≤ 199) || status = 204 || status = 304
+                    || (asciiUpper method == sConnect && 200 ≤ status && status ≤ 299)
+  if !te.isEmpty && !cl.isEmpty then Option.none
+  else if !te.isEmpty && !(codings.all (fun c => knownCodings.contains c) && version == sHttp11
+      && (codings.filter (· == sChunked)).length ≤ 1
+      && (!codings.contains sChunked || codings.getLast? == some sChunked)
+      && !((100 ≤ status && status ≤ 199) || status = 204)) then Option.none
+  else
+    let items := (cl.flatMap (splitOn 44)).map stripOws
+    match (if cl.isEmpty then some Option.none else
+            match items.map parseDec with
+            | some n :: rest => if rest.all (· == some n) then some (some n) else Option.none
+            | _ => Option.none) with
+    | Option.none => Option.none
+    | some n? =>
+      if bodilessR then some .none
+      else if !te.isEmpty then (if codings.getLast? == some sChunked then some .chunked else some .eof)
+      else match n? with
+        | some n => some (.cl n)
+        | Option.none => some .eof
+
+/-- all responses of a byte stream; `eof`: the sender has closed the connection (this is what ends a close-delimited
+    body); `methods`: the methods of the requests the responses answer, in order.  `none` if any part is malformed,
+    ambiguous or incomplete — or if anything follows a response that turns the connection into a tunnel. -/
+def parseResponses : Nat → Bool → List Bytes → Bytes → Option (List RMsg)
+  | 0, _, _, _ => none
+  | f + 1, eof, methods, bs =>
+    if bs.isEmpty then some []
+    else match headLines (bs.length + 1) bs with
+      | none => none
+      | some ([], _) => none                       -- an empty line where a status line is expected
+      | some (first :: ls, rest) =>
+        match parseStatusLine first, parseFields ls with
+        | some (v, st, reason), some fs =>
+          let method := methods.headD []
+          let interim := decide (100 ≤ st ∧ st ≤ 199 ∧ st ≠ 101)
+          let methods' := if interim then methods else methods.drop 1
+          let tunnel := st = 101 || (asciiUpper method == sConnect && 200 ≤ st && st ≤ 299)
+          let next (body : Bytes) (r : Bytes) : Option (List RMsg) :=
+            if tunnel then (if r.isEmpty then some [⟨v, st, reason, fs, body⟩] else none)
+            else (parseResponses f eof methods' r).map (⟨v, st, reason, fs, body⟩ :: ·)
+          match framingResp v st method fs with
+          | none => none
+          | some .none => next [] rest
+          | some (.cl n) => if rest.length < n then none else next (rest.take n) (rest.drop n)
+          | some .chunked =>
+            match chunked (rest.length + 1) rest with
+            | none => none
+            | some (b, r) => next b r
+          | some .eof => if eof then next rest [] else none
+        | _, _ => none
+
+def parseResp (eof : Bool) (methods : List Bytes) (bs : Bytes) : Option (List RMsg) :=
+  parseResponses (bs.length + 2) eof methods bs
+
 end Ref
 end MitmVerif.C06
